@@ -80,6 +80,17 @@ func (e *Enc) Run() (err error) {
 			e.assumed["captured variables that are written once before the closure is created and only read afterwards have a fixed value (site scan of every function capturing them)"] = true
 		}
 	}
+	// channel parameters that every caller supplies with a private closes-only channel
+	if e.inl == "" && fn == e.topFn {
+		for i, prm := range fn.Params {
+			if _, isChan := prm.Type().Underlying().(*types.Chan); isChan && fn.Pkg != nil && e.prog.paramPrivateChan(fn, i) {
+				if t, ok := e.vals[prm]; ok {
+					e.privateChans = append(e.privateChans, t)
+					e.assumed["channel parameters that every call site in the module supplies with a locally made channel nothing is sent on are closed only at their own close sites (site scan)"] = true
+				}
+			}
+		}
+	}
 	// captured variables are distinct, allocated cells
 	for i, a := range fn.FreeVars {
 		e.sc.Assert(App(SBool, ">", e.vals[a], IntLit(0)))
